@@ -13,7 +13,7 @@ MANIFEST = dict(
   technique="Lean 4 proof on source-regenerated tables and a hand-written solver model + differential correspondence with the C++ (ASan/UBSan)",
   design="§6 C16")
 FINISH = dict(level="proof", rule="table dumps for every generated table and c=2..8")
-LAKE_TARGETS = ["SharkVerif.Gen.McTables", "drv_c16"]
+LAKE_TARGETS = ["SharkVerif.Props.C16", "drv_c16"]
 SRC = ["src/Core/Random.cpp"]
 TABLES = ["WWCS_nu", "WWCS_M", "ATMATS_nu", "ATMATS_M", "ADMLLW_nu", "ADMLLW_M", "MMR_nu", "MMR_M"]
 
@@ -22,8 +22,13 @@ def translate(ctx):
     return ctx.translate("mcsvm_tables.py")
 
 
+def hname(base):
+    """separate cache entries per repo tree (scratch worktrees via VERIF_REPO), so that switching trees does not thrash"""
+    return base if core.REPO == "/repo" else f"{base}-{core.sha(core.REPO)[:6]}"
+
+
 def build(ctx):
-    return ctx.harness("c16", ["c16.cpp"], repo_sources=SRC)
+    return ctx.harness(hname("c16"), ["c16.cpp", "c16s.cpp"], repo_sources=SRC)
 
 
 def classify(ops, res):
@@ -58,19 +63,206 @@ def table_cases(ctx):
     return cases
 
 
+# ---------------------------------------------------------------------------
+# decomposition-class op sequences (harness/c16s.cpp  vs  Model/McSmo.lean)
+# ---------------------------------------------------------------------------
+FAMILY_P = {"WWCS": lambda c: c - 1, "ATMATS": lambda c: c, "ADMLLW": lambda c: c - 1, "MMR": lambda c: 1}
+
+
+def gen_box_case(r, maxlen, ctx=None):
+    fam = r.choice(["WWCS", "WWCS", "ATMATS", "ATMATS", "ADMLLW", "MMR"])
+    c = r.choice([2, 2, 3, 3, 4, 4, 5])
+    P = FAMILY_P[fam](c)
+    n = r.range(max(2, 1), 6)
+    labels = [r.below(c) for _ in range(n)]
+    labels[r.below(n)] = c - 1                      # numberOfClasses(target) must be c
+    cnum, cshift = r.choice([(1, 0), (1, 0), (2, 0), (1, 1), (4, 0), (3, 0), (1, 2), (5, 1)])
+    # linear part: all ones (what the trainer passes), reinforced-style, or small integers
+    lk = r.below(10)
+    lin = []
+    for i in range(n):
+        for p in range(P):
+            if lk < 6: lin.append(1)
+            elif lk < 8: lin.append(c - 1 if (fam == "ATMATS" and p == labels[i]) else 1)
+            else: lin.append(r.range(-2, 3))
+    # symmetric PSD kernel matrix K = G G^T (integer), optionally scaled by 2^-kshift;
+    # diagonal power-of-two variants keep many steps exact
+    kk = r.below(10)
+    if kk < 3:
+        K = [[(1 << r.below(3)) if i == j else 0 for j in range(n)] for i in range(n)]
+        for i in range(n): K[i][i] = K[0][0]
+        kshift = r.below(3)
+    else:
+        rk = r.range(1, 3)
+        G = [[r.range(-2, 2) for _ in range(rk)] for _ in range(n)]
+        K = [[sum(G[i][t] * G[j][t] for t in range(rk)) for j in range(n)] for i in range(n)]
+        if r.chance(1, 2):
+            for i in range(n): K[i][i] += 1        # strictly positive definite
+        kshift = r.below(3)
+    shr = 0 if r.chance(1, 8) else 1
+    ops = ["box %s %d %d %d %d %d %d %s" % (fam, c, n, cnum, cshift, shr, kshift,
+           " ".join(map(str, labels + lin + [K[i][j] for i in range(n) for j in range(n)])))]
+    nv = n * P
+    for _ in range(r.range(1, maxlen)):
+        x = r.below(100)
+        hi = max(1, nv if r.chance(1, 2) else (nv + 1) // 2)
+        if x < 50:
+            v = r.below(hi)
+            w = v if r.chance(2, 5) else r.below(hi)
+            ops.append(f"smo {v} {w}")
+        elif x < 60:
+            ops.append(f"deactvar {r.below(hi)}")
+        elif x < 66:
+            ops.append(f"killex {r.below(n)}")
+        elif x < 72:
+            ops.append(f"deactex {r.below(n)}")
+        elif x < 82:
+            num, sh = r.choice([(1, 10), (1, 3), (1, 0), (8, 0), (1, 20)])
+            ops.append(f"shrink {num} {sh}")
+        elif x < 88:
+            ops.append("unshrink")
+        elif x < 91:
+            ops.append("adddelta " + " ".join(str(r.range(-1, 1)) for _ in range(nv)))
+        elif x < 96:
+            ops.append(f"label {r.below(n)}")
+        else:
+            ops.append("select1")
+    if ctx is not None:
+        ctx.hist("box_family", fam); ctx.hist("box_classes", c); ctx.hist("box_examples", n)
+    return ops
+
+
+def split_line(l):
+    """-> (main, side-channel dict, oracle tags)"""
+    main, _, orc = l.partition(" !oracle")
+    body, *side = main.split(" #")
+    d = {}
+    for t in side:
+        k, _, v = t.strip().partition("=")
+        d[k] = v
+    return body, d, (("!oracle" + orc) if orc else "")
+
+
+class BoxResult:
+    def __init__(self):
+        self.ok, self.crash, self.oracle, self.diff_at, self.exact_diff = True, False, [], None, None
+        self.impl, self.model, self.stderr = [], [], ""
+        self.exact_lines = 0
+        self.lines = 0
+
+
+def run_box(ctx, hcmd, dcmd, ops, timeout=300):
+    r = BoxResult()
+    text = "\n".join(ops) + "\n"
+    r.impl, r.model, rc, r.stderr = ctx.run_pair(hcmd, dcmd, text, timeout=timeout, env={"OMP_NUM_THREADS": "1"})
+    if rc != 0:
+        r.crash, r.ok = True, False
+    n = max(len(r.impl), len(r.model))
+    for k in range(n):
+        a = r.impl[k] if k < len(r.impl) else "<missing>"
+        b = r.model[k] if k < len(r.model) else "<missing>"
+        ma, sa, oa = split_line(a)
+        mb, sb, _ = split_line(b)
+        if oa:
+            r.oracle.append(a); r.ok = False
+        if ma != mb and r.diff_at is None:
+            r.diff_at, r.ok = k, False
+        r.lines += 1
+        if sa.get("x") == "1":
+            r.exact_lines += 1
+            # all floating-point operations so far were exact: the Rat model must agree exactly
+            if sb.get("rat") != "ok" and r.exact_diff is None:
+                r.exact_diff, r.ok = k, False
+    return r
+
+
+def classify_box(ops, res):
+    kinds = sorted({o.split()[0] for o in ops[1:]})
+    fam = ops[0].split()[1] if ops and ops[0].startswith("box") else "?"
+    if res.oracle:
+        tags = sorted({m for l in res.oracle for m in re.findall(r"!oracle (\S+)", l)})
+        if tags == ["label-after-shrink"]:
+            return "F-C16-1:label-after-shrink", ("QpMcBoxDecomp::label(i) returns the label of the example currently at position i, "
+                                                   f"not of dataset example i, after deactivateExample; ops {ops}")
+        return f"oracle:{'+'.join(tags)}:{fam}", f"invariant oracle failed ({tags}) on ops {ops}"
+    if res.crash:
+        m = re.search(r"ERROR: AddressSanitizer: (\S+)|runtime error: ([^\n]*)", res.stderr)
+        tag = (m.group(1) or m.group(2)) if m else "crash"
+        return f"crash:{tag}:{fam}", f"harness aborted ({tag}) on ops {ops}"
+    if res.diff_at is not None:
+        return f"mismatch:{fam}:{'+'.join(kinds)}", f"model and implementation disagree at line {res.diff_at} of ops {ops}"
+    return f"exact-mismatch:{fam}:{'+'.join(kinds)}", f"exact (FE_INEXACT clear) run differs from the Rat model at line {res.exact_diff} of ops {ops}"
+
+
+def correspond_box(ctx, name, cases, hcmd, dcmd, max_report=4):
+    import time
+    from concurrent.futures import ThreadPoolExecutor
+    t = time.time()
+    all_ops = [l for c in cases for l in c]
+    big = run_box(ctx, hcmd, dcmd, all_ops, timeout=900)
+    ctx.count("traces_validated_against_impl", len(cases))
+    ctx.count("ops_compared", len(all_ops))
+    ctx.count("box_lines_exact_mode", big.exact_lines)
+    ctx.count("box_lines_bit_mode", big.lines - big.exact_lines)
+    if big.ok:
+        ctx.log(f"{name}: {len(cases)} cases / {len(all_ops)} ops agree; exact-mode lines {big.exact_lines}, bit-mode lines {big.lines - big.exact_lines} ({time.time()-t:.1f}s)")
+        return 0
+    with ThreadPoolExecutor(max_workers=3) as ex:
+        results = list(ex.map(lambda c: run_box(ctx, hcmd, dcmd, c, timeout=120), cases))
+    failing = [(c, r) for c, r in zip(cases, results) if not r.ok] or [(all_ops, big)]
+    ctx.log(f"{name}: {len(failing)} of {len(cases)} cases FAIL")
+    seen = set()
+    for c, r in failing:
+        key0, _ = classify_box(c, r)
+        def fails(ops):
+            rr = run_box(ctx, hcmd, dcmd, ops, timeout=60)
+            return (not rr.ok) and classify_box(ops, rr)[0] == key0
+        small = core.shrink_ops(c, fails, keep_prefix=1) if len(c) > 2 else c
+        rs = run_box(ctx, hcmd, dcmd, small, timeout=60)
+        if rs.ok: small, rs = c, r
+        key, what = classify_box(small, rs)
+        if key in seen: continue
+        seen.add(key)
+        found = bool(rs.oracle) or rs.crash
+        b = ctx.broken("correspondence", f"{name}:{key}", what); b["resolved"] = True
+        replay = {"kind": "box", "harness_cmd": hcmd, "driver_cmd": dcmd, "ops": small,
+                  "impl_output": rs.impl[-6:], "model_output": rs.model[-6:], "first_diff_line": rs.diff_at,
+                  "exact_diff_line": rs.exact_diff, "oracle": rs.oracle[:5], "crash": rs.crash, "stderr_tail": rs.stderr[-1500:]}
+        ctx.violation(key, replay, found_input=found, what=what)
+        if len(seen) >= max_report: break
+    return len(failing)
+
+
 def run(ctx):
     ctx.trusted += ["translator translate/mcsvm_tables.py (C++ subset parser; every generated table is also compared with the real arrays)",
-                    "correspondence harnesses harness/c16*.cpp + generator checks/c16.py"]
+                    "correspondence harnesses harness/c16*.cpp + generator checks/c16.py",
+                    "hand-written model Model/McSmo.lean (QpMcBoxDecomp.h, AnalyticProblems.h are modelled, not translated)"]
     translate(ctx)
-    ctx.prove(["SharkVerif.Gen.McTables"])
+    ctx.prove(["SharkVerif.Props.C16"])
+    if not ctx.quick:
+        ctx.leanchecker(["SharkVerif.Props.C16"])
     exe = build(ctx)
     drv = ctx.driver("drv_c16")
     if not exe or not drv:
         return
+    corpus = load_corpus()
+    ctx.cov["corpus_cases"] = len(corpus)
     cases = table_cases(ctx)
     ctx.cov["evaluations"] = len(cases)
     ctx.cov["distinct_nontrivial"] = len(cases)
     core.correspond(ctx, "K-C16-tables", cases, [exe], [drv], classify, keep_prefix=0)
+    # decomposition-class op sequences
+    r = ctx.rng.fork("c16-box")
+    nbox, maxlen = (150, 40) if ctx.quick else (1500, 150)
+    bcases = [c for c in corpus if c[0].startswith("box")]
+    bcases += [gen_box_case(r, maxlen, ctx) for _ in range(nbox)]
+    for c in bcases:
+        for o in c: ctx.hist("op_mix", o.split()[0])
+        ctx.hist("history_length", min(len(c) // 20 * 20, 400))
+    ctx.cov["evaluations"] += len(bcases)
+    ctx.cov["distinct_nontrivial"] += len({"\n".join(c) for c in bcases if len(c) > 3})
+    ctx.sample({"box_ops": bcases[len(bcases) // 2][:8]})
+    correspond_box(ctx, "K-C16-box", bcases, [exe], [drv])
 
 
 def replay(ctx, rep):
